@@ -115,14 +115,14 @@ PROPS = {
     },
     "C02": {
         "props_file": "Props/C02.v",
-        "run_files": ["Run/CaseConn.v", "Run/CaseCookie.v"],
-        "imports": ["Lib.Bytes", "Codec.Desc", "Conn.Types", "Conn.Prog", "Conn.Sem1", "Run.CaseConn"],
+        "run_files": ["Run/CaseConn.v", "Run/CaseCookie.v", "Run/CaseConnJson.v"],
+        "imports": ["Lib.Bytes", "Codec.Desc", "Conn.Types", "Conn.Prog", "Conn.Sem1", "Run.CaseConn", "Run.CaseConnJson"],
         "case_type": "conn_case",
-        "checkers": {"BASE": "check_c02", "C02": "check_c02", "C01": "check_c02", "C10": "check_c02"},
-        "harness": [{"bin": "conn", "env": {"VERIF_FAMILIES": "BASE,C02,C01,C10"}}, {"bin": "cookie", "case_type": "ckcase", "imports": ["Lib.Bytes", "Run.CaseCookie"], "checkers": {"SG": "check_cookie", "CK": "check_cookie"}, "shard": 20}],
+        "checkers": {"BASE": "check_c02_json", "C02": "check_c02_json", "C01": "check_c02_json", "C10": "check_c02_json"},
+        "harness": [{"bin": "conn", "env": {"VERIF_FAMILIES": "BASE,C02,C01,C10"}}, {"bin": "cookie", "case_type": "ckcase", "imports": ["Lib.Bytes", "Conn.Types", "Run.CaseCookie"], "checkers": {"SG": "check_cookie", "CK": "check_cookie", "JS": "check_cookie", "JP": "check_cookie"}, "shard": 100}],
         "shard": 40,
         "quick_scale": 1, "thorough_scale": 8, "search_factor": 4,
-        "ties": ["conn binary: real Connection::listen on a scripted transport/client/adapters in a paused runtime vs Conn.Sem1.run1 (sends, calls, outcome, virtual ms)",
+        "ties": ["cookie binary JS/JP: the real serde_json to_vec / from_slice on AuthCookie and SessionCookie vs the Gallina serde of Crypto/CookieJson.v (writer bytes equal; parser verdict and record equal whenever the model decides), and the serde tables recorded in every conn case vs the same model (Run/CaseConnJson.v)", "conn binary: real Connection::listen on a scripted transport/client/adapters in a paused runtime vs Conn.Sem1.run1 (sends, calls, outcome, virtual ms)",
                  "Gen/PacketsGen.v descriptors decode the client's frames and encode the model's packets"],
         "allowed_axioms": [],
         "rule": 'conn binary family C02: per secret a valid cookie and its variants (absent, empty, ages around the expiry, other IP, other secret, truncations, bit flips, signed non-cookie bodies) x intents x secret configured or not, under the clock hook; non-trivial = distinct case in which a cookie payload was presented',
@@ -172,11 +172,16 @@ PROPS = {
     },
     "C05": {
         "props_file": "Props/C05.v",
-        "run_files": ["Run/CaseC05.v"],
+        "run_files": ["Run/CaseC05.v", "Run/CaseConn.v"],
         "imports": ["Lib.Bytes", "Crypto.CipherStream", "Run.CaseC05"],
         "case_type": "c05case",
         "checkers": {"WR": "check_c05", "RD": "check_c05", "SW": "check_c05"},
-        "harness": [{"bin": "stream"}],
+        "harness": [{"bin": "stream"},
+                    # the connection-level switch: real Connection::listen; the harness client decrypts with an independent CFB8
+                    {"bin": "conn", "env": {"VERIF_FAMILIES": "BASE,C01,C10"}, "case_type": "conn_case",
+                     "imports": ["Lib.Bytes", "Codec.Desc", "Conn.Types", "Conn.Prog", "Conn.Sem1", "Run.CaseConn"],
+                     "checkers": {"BASE": "check_c05c", "C01": "check_c05c", "C10": "check_c05c"}, "shard": 40}],
+        "ignore_families": ["C10P"],
         "shard": 10,
         "quick_scale": 1, "thorough_scale": 8, "search_factor": 4,
         "ties": ["stream binary: the real CipherStream<_, cfb8::Encryptor<Aes128>, cfb8::Decryptor<Aes128>> polled by hand over a scripted inner transport vs Crypto/CipherStream.v; ciphertext recomputed with the Gallina AES-128 (FIPS-197 / SP 800-38A vectors as Examples)"],
@@ -189,14 +194,14 @@ PROPS = {
     },
     "C10": {
         "props_file": "Props/C10.v",
-        "run_files": ["Run/CaseConn.v", "Run/CaseCookie.v"],
-        "imports": ["Lib.Bytes", "Codec.Desc", "Conn.Types", "Conn.Prog", "Conn.Sem1", "Run.CaseConn"],
+        "run_files": ["Run/CaseConn.v", "Run/CaseCookie.v", "Run/CaseConnJson.v"],
+        "imports": ["Lib.Bytes", "Codec.Desc", "Conn.Types", "Conn.Prog", "Conn.Sem1", "Run.CaseConn", "Run.CaseConnJson"],
         "case_type": "conn_case",
-        "checkers": {"BASE": "check_c10", "C10": "check_c10", "C02": "check_c10", "C03": "check_c10"},
-        "harness": [{"bin": "conn", "env": {"VERIF_FAMILIES": "BASE,C10,C02,C03"}}, {"bin": "cookie", "case_type": "ckcase", "imports": ["Lib.Bytes", "Run.CaseCookie"], "checkers": {"SG": "check_cookie", "CK": "check_cookie"}, "shard": 20}],
+        "checkers": {"BASE": "check_c10_json", "C10": "check_c10_json", "C02": "check_c10_json", "C03": "check_c10_json"},
+        "harness": [{"bin": "conn", "env": {"VERIF_FAMILIES": "BASE,C10,C02,C03"}}, {"bin": "cookie", "case_type": "ckcase", "imports": ["Lib.Bytes", "Conn.Types", "Run.CaseCookie"], "checkers": {"SG": "check_cookie", "CK": "check_cookie", "JS": "check_cookie", "JP": "check_cookie"}, "shard": 100}],
         "shard": 40,
         "quick_scale": 1, "thorough_scale": 8, "search_factor": 4,
-        "ties": ["conn binary: real Connection::listen on a scripted transport/client/adapters in a paused runtime vs the byte-level model Conn.Sem2.run2 on the delivered timed segments (sends, calls, outcome, virtual ms), with no class exempted",
+        "ties": ["cookie binary JS/JP: the real serde_json to_vec / from_slice on AuthCookie and SessionCookie vs the Gallina serde of Crypto/CookieJson.v (writer bytes equal; parser verdict and record equal whenever the model decides), and the serde tables recorded in every conn case vs the same model (Run/CaseConnJson.v)", "conn binary: real Connection::listen on a scripted transport/client/adapters in a paused runtime vs the byte-level model Conn.Sem2.run2 on the delivered timed segments (sends, calls, outcome, virtual ms), with no class exempted",
                  "Conn.Sem2.run2 vs Conn.Sem1.run1 o Reader.frames_of on every case: the schedules on which they differ are the known classes K1 / K4",
                  "Gen/PacketsGen.v descriptors decode the client's frames and encode the model's packets"],
         "family_types": {"C10P": {"case_type": "pair_case", "imports": ["Lib.Bytes", "Run.CaseConn"], "checkers": {"C10P": "check_c10_pair"}}},
@@ -388,7 +393,7 @@ for _p in ("C01", "C02", "C03", "C06", "C07"):
     PROPS[_p]["ignore_families"] = ["C10P"]   # pair cases of the C10 family are judged by C10's own checker only
 for _p in ("C02", "C10"):
     PROPS[_p]["skeleton"].append("passage-protocol/src/cookie.rs")
-PROPS["C05"]["skeleton"] = ["passage-protocol/src/crypto/stream.rs"]
+PROPS["C05"]["skeleton"] = ["passage-protocol/src/crypto/stream.rs", "passage-protocol/src/connection.rs::apply_encryption", "passage-protocol/src/connection.rs::listen"]
 PROPS["C13"]["skeleton"] = ["passage-protocol/src/rate_limiter.rs"]
 for _p in ("C14", "C15", "C16", "C17"):
     PROPS[_p]["skeleton"] = ["passage-protocol/src/listener.rs"]
